@@ -398,6 +398,47 @@ def c05_eval_text(work, drv, text, expect=None, trigger=None, corr_only=False):
     return res
 
 
+def project05(v):
+    """the harness's view05 restricted to what the Lean view05 has (no properties of ports / cells / nets, no external flag)"""
+    return {"name": v["name"],
+            "libs": [{"name": L["name"],
+                      "cells": [{"name": C["name"], "view": C["view"],
+                                 "ports": [{k: p[k] for k in ("name", "dir", "width", "array")} for p in C["ports"]],
+                                 "insts": [{k: i[k] for k in ("name", "ref", "props")} for i in C["insts"]],
+                                 "cables": [{k: cb[k] for k in ("name", "array", "lower", "wires")} for cb in C["cables"]]}
+                                for C in L["cells"]]} for L in v["libs"]],
+            "top": v["top"]}
+
+
+def lean_denote_check(sr, work, drv, inp):
+    """Ties the SPEC SIDE of the Lean theorem C05.edif_reader_spec to the implementation, for a design inside the fragment:
+    Lean's own writer lays the design out (`renderText d`), Lean says what it denotes (`denote d`) and what the model reader
+    builds (`view05 (readEdif …)`: equal by the theorem); the REAL reader parses Lean's text and its view must be Lean's
+    denotation — and the harness's own denotation of the same design must agree with Lean's."""
+    r = drv.ask({"fn": "denote05", "d": G.to_adesign(inp["d"])})
+    sr.dist("c05.lean-denote-checked")
+    if "error" in r or not r.get("wf"):
+        sr.corr_mismatch("driver: denote05 answers for a design reported inside the fragment", {"kind": "design", **inp}, "wf", r)
+        return
+    if r["model"] != r["denote"]:
+        sr.corr_mismatch("Lean: view05(readEdif(renderText d)) = denote d (instance of edif_reader_spec)", {"kind": "design", **inp},
+                         r["denote"], r["model"])
+    mine = project05(G.denote(inp["d"]))
+    d0 = G.first_diff(mine, r["denote"])
+    if d0:
+        sr.corr_mismatch("spec: the harness's denotation = Lean's `denote` of the same design", {"kind": "design", **inp},
+                         {"diff_at": d0}, None)
+    ri = impl_parse_text(work, r["text"])
+    if ri[0] != "ok":
+        sr.corr_mismatch("spec: sdn.parse accepts the text of Lean's writer", {"kind": "text", "text": r["text"][:3000]}, ri[1:], "accepted")
+        return
+    vi = project05(G.view05(canon.cnetlist(ri[1])))
+    d1 = G.first_diff(vi, r["denote"])
+    if d1:
+        sr.corr_mismatch("spec: view05(sdn.parse(renderText d)) = Lean's `denote d`", {"kind": "text", "text": r["text"][:3000]},
+                         {"diff_at": d1}, None)
+
+
 def c05_design_text(inp):
     rng = random.Random(inp.get("lseed", 0))
     text, toks = G.render(inp["d"], rng, inp.get("style"), inp.get("mode"))
@@ -422,6 +463,7 @@ def c05_run_design(sr, work, drv, inp, shrink=True, deadline=None, shrunk=None):
             fr = drv.ask({"fn": "wf05", "d": G.to_adesign(inp["d"])})
             if fr.get("in") is True:
                 sr.dist("theorem_fragment:C05.edif_reader_spec:in")
+                lean_denote_check(sr, work, drv, inp)
             else:
                 sr.dist("theorem_fragment:C05.edif_reader_spec:out:" + ("wf." + fr["clause"] if "clause" in fr else "not_representable"))
     except Exception:
